@@ -96,4 +96,3 @@ func runLemmas(id string, prog *Program, specs *SpecSet, opts solveOpts, known *
 	return res
 }
 
-func (c *Ctx) tryReplay(res *FuncResult, o *Obligation, dir string) bool { return false }
